@@ -2,6 +2,8 @@ import SaVerif.Model.Expr
 import SaVerif.Model.ExprGrammar
 import SaVerif.Model.ExprEval
 import SaVerif.Lemmas.ExprCore
+import SaVerif.Lemmas.ExprBuild
+import SaVerif.Model.ExprSem
 import SaVerif.Drv.Parse
 /-!
 Sub-driver of M-EXPR.  One request per line:
@@ -182,13 +184,6 @@ def grammarOf : Dialect → Grammar
 
 def b01 (b : Bool) : String := if b then "1" else "0"
 
-def litVal : Lit → Val
-  | .int i => .int i
-  | .str s => .str s
-  | .bool b => .int (if b then 1 else 0)
-  | .num _ => .null
-  | .null => .null
-
 def tvStr : TV → String
   | none => "N"
   | some true => "T"
@@ -316,6 +311,21 @@ def handle : List String → String
         "ok " ++ readToks (grammarOf dl) (t.print.map eraseTok) ++ " " ++
           showStr (skelStr (collapseNeg t.strip.norm.skel))
     | _, _ => "bad-op"
+  | "evalu" :: ia :: ib :: ic :: rest =>
+    -- meaning of a fragment tree (`evalNumU` / `evalBoolU`) on one row of integer columns
+    match parseLit? ia, parseLit? ib, parseLit? ic, parseWire rest with
+    | some a, some b, some c, some u =>
+      let env : String → Val := fun n =>
+        if n == "ia" then litVal a else if n == "ib" then litVal b else if n == "ic" then litVal c
+        else .null
+      if NumU u then
+        match evalNumU env u with
+        | .int i => "ok i" ++ toString i
+        | .null => "ok N"
+        | .str _ => "ok str"
+      else if BoolU u then "ok " ++ tvStr (evalBoolU env u)
+      else "na"
+    | _, _, _, _ => "bad-op"
   | "evalin" :: x :: n :: rest =>
     match parseLit? x, parseNat? n with
     | some xv, some k =>
